@@ -13,7 +13,13 @@ st = subprocess.run(["git", "-C", "/repo", "status", "--porcelain"], capture_out
 if st:
     sys.exit(f"/repo is not clean:\n{st}")
 res = {}
-subprocess.check_call(["git", "-C", "/repo", "apply", os.path.join(d, "patch.diff")])
+patch = os.path.join(d, "patch.diff")
+if subprocess.call(["git", "-C", "/repo", "apply", patch], stderr=subprocess.DEVNULL) != 0:
+    # the seed was written against an older /repo main (before later `fix:` commits): merge it
+    if subprocess.call(["git", "-C", "/repo", "apply", "--3way", patch], stderr=subprocess.DEVNULL) != 0:
+        subprocess.call(["git", "-C", "/repo", "reset", "-q", "--hard"])
+        sys.exit(f"{sid}: patch no longer applies to /repo main")
+    subprocess.check_call(["git", "-C", "/repo", "reset", "-q"])
 try:
     for p in props:
         evp = os.path.join(ROOT, "evidence", f"{p}.json")
